@@ -152,6 +152,13 @@ def gen_step(rng, cur, style):
         if rng.random() < 0.15:
             i = rng.choice([2, 3, 4, 5, 6] + ([7] if nf >= 8 else []))
             n[i] = max(0, n[i] - rng.randrange(1, 1000))      # a counter going backwards
+        if nf >= 9 and rng.random() < 0.06:
+            # the kernel's user (or nice) counter stalls or slips back while its guest share advances (the two are updated
+            # separately): "a backwards counter contributes zero" and "every value within [0, 100]" meet
+            j = rng.choice([8] + ([9] if nf >= 10 else []))
+            n[j - 8] = max(0, c[j - 8] - rng.choice([0, 1, 250]))
+            n[j] = c[j] + rng.choice([200, 450, 10**5])
+            n[3] = max(n[3], c[3] + rng.choice([100, 1000]))      # (time does pass on that line: no 0/0 shares)
         nxt.append(n)
     return nxt
 
@@ -203,7 +210,8 @@ def gen_proc_case(rng):
         other = [rng.choice([0, 0, rng.randrange(1, 5000)]) for _ in range(3)]
         ops.append(dict(utime=u, stime=s, dt=dt, other=other,
                         wall_step=rng.choice([0, 0, 0, -3600, 120, -0.3, 86400 * 365]),
-                        interval=(dt if blocking and dt > 0 else rng.choice([None, 0, 0.0]))))
+                        interval=(dt if blocking and dt > 0 else rng.choice([None, 0, 0.0])),
+                        oversleep=rng.choice([0, 0, dt * 0.5, dt * 2, 0.3])))
     return dict(proc=True, ops=ops)
 
 
@@ -264,6 +272,8 @@ def run_case(case, acc):
                     if not (0.0 <= v <= 100.0):
                         viols.append(("cpu_times_percent_out_of_range", ctx + f" field {names[i]}={v}"))
                     want = Fraction(100 * d[i], tot) if tot > 0 else Fraction(0)
+                    if tot == 0 and d[i] > 0 and i >= 8:
+                        continue        # a guest share of an elapsed total of zero is 0/0: any value in range is accepted
                     if not close(v, min(want, Fraction(100))):
                         # the recorded finding divides by max(1 s, elapsed): with less than one CPU-second elapsed the share
                         # comes out as 100 * delta / CLK - only an answer of exactly that shape is the known mechanism
@@ -414,7 +424,13 @@ def run_proc_case(case, acc):
                         grow_other(op)
                         clock.wall_offset = getattr(clock, "wall_offset", 0.0) + op.get("wall_step", 0)
                     clock.at(clock.t + interval / 2, bump)
-                    got = pr.cpu_percent(interval=interval)
+                    clock.oversleep = op.get("oversleep", 0)       # the sleep returns late: elapsed time is what elapsed
+                    if clock.oversleep:
+                        acc.count("process_percent_blocking_with_late_wakeup")
+                    try:
+                        got = pr.cpu_percent(interval=interval)
+                    finally:
+                        clock.oversleep = 0.0
                     ref = before
                 else:
                     clock.advance(op["dt"])
